@@ -214,6 +214,14 @@ func (g *Syn) overBudget() bool {
 
 // Expr generates an expression of depth at most d.
 func (g *Syn) Expr(d int) *Node {
+	n := g.expr(d)
+	if !g.O.Plain && n.K != KRaw && g.R.IntN(14) == 0 {
+		n.Paren = 1 + g.R.IntN(2) // `(e)` or `((e))` in every rendering of the tree
+	}
+	return n
+}
+
+func (g *Syn) expr(d int) *Node {
 	if g.overBudget() {
 		return g.atom()
 	}
